@@ -816,6 +816,27 @@ func monTime(c *child.Ctx, replay json.RawMessage, anyStart bool) {
 	}
 	for i := 0; i < n; i++ {
 		k, nontriv := genHistory(r, anyStart)
+		if i%11 == 7 {
+			// a session that starts in the days before the clocks change in Europe, North
+			// America or Australia and runs across that weekend (the machine may keep its
+			// local time in such a zone)
+			year := 2005 + r.Intn(31)
+			var sunday time.Time
+			switch r.Intn(4) {
+			case 0: // last Sunday of March
+				sunday = time.Date(year, time.March, 31, 0, 0, 0, 0, time.UTC)
+			case 1: // last Sunday of October
+				sunday = time.Date(year, time.October, 31, 0, 0, 0, 0, time.UTC)
+			case 2: // second Sunday of March
+				sunday = time.Date(year, time.March, 14, 0, 0, 0, 0, time.UTC)
+			default: // first Sunday of November / of April and October (south)
+				sunday = time.Date(year, []time.Month{time.November, time.April, time.October}[r.Intn(3)], 7, 0, 0, 0, 0, time.UTC)
+			}
+			sunday = sunday.AddDate(0, 0, -int(sunday.Weekday()))
+			T := sunday.Add(-time.Duration(r.Range(0, 6*86400)) * time.Second).Add(time.Duration(r.Range(0, 26*3600)) * time.Second)
+			k, nontriv = genHistoryAt(r, anyStart, &T)
+			c.Count("histories_around_a_clock_change_weekend", 1)
+		}
 		if i%9 == 4 {
 			// through the applications' core, which has played another recording (another
 			// week, its own start time) just before
